@@ -366,9 +366,15 @@ func cmdGo(args []string) {
 	thorough := fs.Bool("thorough", false, "")
 	_ = thorough
 	sprobe := fs.Bool("shapesprobe", false, "")
+	pprobe := fs.Bool("paramprobe", false, "")
 	fs.Parse(args)
 	if *sprobe {
 		b, _ := json.Marshal(shapesProbe())
+		fmt.Println(string(b))
+		return
+	}
+	if *pprobe {
+		b, _ := json.Marshal(paramObjectProbe())
 		fmt.Println(string(b))
 		return
 	}
